@@ -33,6 +33,8 @@ pub fn check(tier: Tier) -> Check {
         // string by bytes meets a character boundary it did not expect), through every error and
         // response type, which are also printed (Display / Debug, see spec::err_dig)
         Part::new("C02/utf8-align", json!({}), 0, 120),
+        // what the accessors say does not change while a message waits to be read (real time)
+        Part::new("C02/aging", json!({}), 0, 60),
         // the client announces a Maximum Packet Size of its own: packets of exactly that size (and one
         // byte less) are well within what the server may send
         Part::new("C02/own-limit", json!({}), 0, 60),
@@ -586,6 +588,35 @@ pub fn scenario(name: &str, params: &Value) -> Scenario {
             sys.report(ex, &["puback", "suback", "server-disconnect", "message-dispatched"]);
         }),
         "C02/utf8-align" => utf8_align("C02", name, params),
+        "C02/aging" => Box::new(move |chz, ex| {
+            // a message read 1.3 s (real time) after it arrived shows the values that were encoded
+            let exp = [100u32, 1, u32::MAX][chz.choose(3)];
+            let mut sys = Sys::new("C02", &name, chz);
+            sys.params = params.clone();
+            sys.bring_up(vec![]);
+            sys.apply(Ev::Start(OpSpec::Subscribe(SubscribeSpec::simple("s"))));
+            if sys.dead {
+                return sys.report(ex, &[]);
+            }
+            let ack = sys.ack_for(0, 0, "").unwrap();
+            sys.apply(Ev::Deliver(ack));
+            sys.apply(Ev::TakeStream(0));
+            sys.apply(Ev::Hold(crate::world::Tid::Stream(0)));
+            sys.apply(Ev::Deliver(SPacket::Publish {
+                dup: false,
+                qos: 0,
+                retain: false,
+                topic: "t".into(),
+                pid: None,
+                props: vec![Prop::var(P_SUBSCRIPTION_ID, 1), Prop::u32(P_MESSAGE_EXPIRY, exp)],
+                payload: b"aging".to_vec(),
+            }));
+            sys.events.push("(1.3 s of real time pass)".into());
+            std::thread::sleep(std::time::Duration::from_millis(1300));
+            sys.apply(Ev::Release(crate::world::Tid::Stream(0)));
+            sys.finish();
+            sys.report(ex, &["message-dispatched"]);
+        }),
         "C02/lengths" => {
             let full = params["full"].as_bool().unwrap_or(false);
             Box::new(move |chz, ex| {
